@@ -679,6 +679,10 @@ func (x *Exec) allocFacts(st *State, v *Term, t types.Type) {
 				st.add(Implies(Neq(v, Zero), Eq(App("typeof", SInt, v), IntLit(int64(x.P.typeTag(t))))))
 			}
 		}
+	case *types.Interface:
+		// an interface value holding a reference is that reference (one that exists already);
+		// one holding anything else is never equal to a reference
+		st.add(Le(v, top))
 	case *types.Slice:
 		if !isByteSlice(t) {
 			st.add(Le(sliceAcc(v, 0), top))
@@ -687,7 +691,7 @@ func (x *Exec) allocFacts(st *State, v *Term, t types.Type) {
 		for i := 0; i < u.NumFields(); i++ {
 			ft := u.Field(i).Type()
 			switch ft.Underlying().(type) {
-			case *types.Pointer, *types.Chan, *types.Map, *types.Slice, *types.Struct:
+			case *types.Pointer, *types.Chan, *types.Map, *types.Slice, *types.Struct, *types.Interface:
 				x.allocFacts(st, structField(t, v, i), ft)
 			}
 		}
